@@ -64,7 +64,22 @@ class SpecSeq(object):
         s_h = [k >= 0, n > k, lenf(n), nth(n), F(*(ps + [n + 1])) == z3.Concat(F(*(ps + [n])), self.elem(*(ps + [n])))]
         out += [('speclib/%s/nth/base' % self.name, b_h, nth(k + 1)),
                 ('speclib/%s/nth/step' % self.name, s_h, nth(n + 1))]
+        if self.elem_len == 1 and self.result != Doc and self.result != DocList:
+            # membership lemma (member_lemma) by induction on n, for a fixed y
+            y = z3.FreshConst(self.result.basis(), 'y'); j = z3.Int('j!mlp')
+            def mem(n_): return z3.Contains(F(*(ps + [n_])), z3.Unit(y)) == z3.Exists([j], z3.And(0 <= j, j < n_, self.elem(*(ps + [j]))[0] == y))
+            out += [('speclib/%s/mem/base' % self.name, [F(*(ps + [z3.IntVal(0)])) == self.empty], mem(z3.IntVal(0))),
+                    ('speclib/%s/mem/step' % self.name, [n >= 0, mem(n), F(*(ps + [n + 1])) == z3.Concat(F(*(ps + [n])), self.elem(*(ps + [n])))], mem(n + 1))]
         return out
+
+    def member_lemma(self):
+        """for a list-valued sequence with one item per element: y is in F(p, n) iff it is item(p, j) for some j < n
+        (proved by induction on n with the speclib obligations `mem/base`, `mem/step`)"""
+        ps = [z3.Const('p%d!ml' % i, s_) for i, s_ in enumerate(self.param_sorts)]
+        n, j = z3.Int('n!ml'), z3.Int('j!ml'); y = z3.Const('y!ml', self.result.basis())
+        F = self.f(*(ps + [n]))
+        return z3.ForAll(ps + [n, y], z3.Implies(n >= 0, z3.Contains(F, z3.Unit(y)) == z3.Exists([j], z3.And(0 <= j, j < n, self.elem(*(ps + [j]))[0] == y))),
+                         patterns=[z3.Contains(F, z3.Unit(y))])
 
     def nth_instance(self, ps, n, k):
         """instance of the nth lemma (proved by the speclib obligations above)"""
